@@ -225,6 +225,12 @@ pub fn run_op(fam: &str, name: &str, input: &Value) -> Value {
             "dec" => dec_intlike(name, &get_bytes(&input["buf"]), input["pos"].as_u64().unwrap_or(0) as usize),
             "int_from" => int_from(name, input["neg"].as_bool().unwrap(), get_u128(&input["mag"])),
             "int_into" => int_into(name, input["neg"].as_bool().unwrap(), get_u64(&input["mag"])),
+            #[cfg(feature = "io")]
+            "aread" => {
+                let frames = crate::frames::frames_from_json(&input["frames"]);
+                let sched: Vec<crate::aread::Step> = input["sched"].as_array().unwrap().iter().map(crate::aread::Step::from_json).collect();
+                crate::aread::run_script(&frames, input["cut"].as_u64().unwrap() as usize, input["maxlen"].as_u64().unwrap() as u32, &sched)
+            }
             _ => json!({"p":"unsupported"})
         }
     })
